@@ -9,6 +9,7 @@ from ..env import lerrors
 from ..ref import ws as refws
 
 LEVEL = 'exploration'
+TECHNIQUE = 'runtime monitoring of enumerated closing-handshake histories: wire, API and event oracles over the tagged operation log'
 BUDGET_S = {'quick': 35, 'thorough': 240}
 REQUIRED = {'all': ['oracle.client_initiated', 'oracle.server_initiated', 'oracle.sends_after_close_checked',
                     'oracle.sends_during_closing_checked', 'oracle.closed_then_graceful']}
